@@ -49,6 +49,16 @@ def d1(cx: Cx, ob: Ob) -> None:
     s = cx.summary(fn, ob.id)
     rec = ("param", fn.params[0].name)
     rets = s.returns()
+    for t, ev, ctx in s.all_terms():
+        for c in subterms(t):
+            if op(c) == "call" and callee_name(c) in ("model_dump", "dict", "model_dump_json") and is_const(dict(c[3]).get("exclude_unset"), True):
+                ob.violate(
+                    fn.qualname,
+                    where(fn, ev.line),
+                    f"the writer serialises records with {callee_name(c)}(exclude_unset=True): synonyms that reached a record by in-place merging (add_prefix/add_record with merge=True, chain) are not in the model's fields_set and are silently omitted",
+                    witness="c = Converter([Record(prefix='a', uri_prefix='u')]); c.add_prefix('a', 'v', merge=True); write + load loses the URI-prefix synonym 'v'",
+                    detail="exclude-unset",
+                )
     emitted: dict[str, list] = {}
     for t, ctx in rets[:1]:
         if op(t) == "new" and t[1] == "dict":
@@ -218,6 +228,17 @@ def d2(cx: Cx, ob: Ob) -> None:
         if kind is None:
             ob.violate(fn.qualname, where(fn, ev.line), f"context key `{show(key)[:40]}` is neither the canonical prefix nor a prefix synonym", detail="key-role")
             continue
+        keyvars = [r] + ([ctx.loops[1].a] if len(ctx.loops) == 2 else [])
+        for g in ctx.guards:
+            if g.kind != "guard" or op(g.a) == "param":
+                continue
+            if any(x in keyvars for x in subterms(g.a)):
+                ob.violate(
+                    fn.qualname,
+                    where(fn, ev.line),
+                    f"the {'canonical prefix' if kind == 'canon' else 'prefix synonym'} is written to the context only if `{'' if g.b else 'not '}{show(g.a)[:70]}`: some prefixes of the converter are missing from the written context and do not read back",
+                    detail=f"conditional-write:{kind}",
+                )
         per_flag.setdefault(kind, set()).add(flag)
         ob.site(f"{where(fn, ev.line)} {fn.qualname}", f"context[{'record.prefix' if kind == 'canon' else 'synonym'}] = term (include_synonyms={flag})")
         if not term_ok(val, r):
